@@ -7,7 +7,7 @@ open Subgraph
 
 /-- `v17.if_` -/
 def v17_if_ : CtorSpec :=
-  ⟨[("then_branch", .empty), ("else_branch", .empty)], "else_branch", 0⟩
+  ⟨[("else_branch", .empty), ("then_branch", .empty)], "else_branch", 0⟩
 
 /-- `v17.loop` -/
 def v17_loop : CtorSpec :=
@@ -47,7 +47,7 @@ def v21_scan : CtorSpec :=
 
 /-- source strings for `if_` in tools/generate_opset.py -/
 def gen_if_ : CtorSpec :=
-  ⟨[("then_branch", .empty), ("else_branch", .empty)], "else_branch", 0⟩
+  ⟨[("else_branch", .empty), ("then_branch", .empty)], "else_branch", 0⟩
 
 /-- source strings for `loop` in tools/generate_opset.py -/
 def gen_loop : CtorSpec :=
